@@ -8,6 +8,8 @@ CONSTANTS MaxPre = 0 MaxN = 3
   Places = {"afterstop"}
   StopFlag = "per_buffer"
   CopyMode = "per_branch"
+  AdapterHides = TRUE
+  VarCopy = "per_value"
   Bufs <- BufQuick
 INVARIANT DriversAgree
 INVARIANT FillReaches
